@@ -38,12 +38,14 @@ Section Tokens.
   (* what the provider's answer to a reference is, as text *)
   Variable val : str -> str.
 
-  (* a reference the theorem covers: recognised, '$'- and '}'-free name, the provider answers with a
-     string form that contains no '$' (hence no further reference and nothing to un-escape) *)
+  (* a reference the theorems cover: recognised, '$'- and '}'-free name, the provider answers with the
+     string form [val n] *)
   Definition ref_good (n : str) : Prop :=
     name_ok n = true /\ ref_ok def n = true /\
-    has_char cDollar (val n) = false /\
     exists ret, expand_uri def retrieve (ref_text n) = Ok ret /\ as_string ret = Some (val n).
+  (* the provider texts of the references of ts contain no '$' (hence no further reference and nothing to
+     un-escape): the hypothesis of the flat theorem; the nested theorem (Proofs7.v) does without it *)
+  Definition plain (ts : list tok) : Prop := forall n, In (TRef n) ts -> has_char cDollar (val n) = false.
 
   (* well-formedness, left to right; [pd] = the previous token is a lone '$' *)
   Fixpoint wf_from (pd : bool) (ts : list tok) : Prop :=
@@ -171,9 +173,30 @@ Section Tokens.
     destruct t; try reflexivity. cbn [subst_all1]. rewrite sem_lit. unfold sem. cbn. now rewrite app_nil_r.
   Qed.
 
-  Lemma wf_subst n ts pd : wf_from pd ts -> wf_from pd (subst n ts).
+  Lemma plain_cons t ts : plain (t :: ts) -> plain ts.
+  Proof. intros H n Hn. apply H. now right. Qed.
+
+  Lemma in_lit_ref m s : ~ In (TRef m) (lit_tokens s).
   Proof.
-    revert pd. induction ts as [|t ts IH]; intros pd H; [exact H|].
+    induction s as [|c s IH]; [exact (fun H => H)|]. unfold lit_tokens in *. cbn [map]. intros [H|H]; [|auto].
+    unfold lit_tok in H. destruct (Ascii.eqb c cClose); discriminate.
+  Qed.
+
+  Lemma in_subst_ref m n ts : In (TRef m) (subst n ts) -> In (TRef m) ts.
+  Proof.
+    induction ts as [|t ts IH]; [exact (fun H => H)|]. unfold subst in *. cbn [flat_map]. intros H.
+    apply in_app_or in H as [H|H]; [|right; auto].
+    destruct t; cbn [subst1] in H; try (destruct H as [H|[]]; left; exact H).
+    destruct (str_eqb name n); [exfalso; exact (in_lit_ref _ _ H)|destruct H as [H|[]]; left; exact H].
+  Qed.
+
+  Lemma plain_subst n ts : plain ts -> plain (subst n ts).
+  Proof. intros H m Hm. apply H. exact (in_subst_ref m n ts Hm). Qed.
+
+  Lemma wf_subst n ts pd : plain ts -> wf_from pd ts -> wf_from pd (subst n ts).
+  Proof.
+    revert pd. induction ts as [|t ts IH]; intros pd Hp H; [exact H|].
+    pose proof (plain_cons _ _ Hp) as Hp'.
     unfold subst in *. cbn [flat_map].
     destruct t; cbn [subst1 app wf_from] in *.
     - destruct H as [H1 [H2 H3]]. auto.
@@ -182,7 +205,7 @@ Section Tokens.
     - destruct H as [H1 H2]. auto.
     - destruct H as [H1 [H2 H3]]. subst pd.
       destruct (str_eqb name n) eqn:E.
-      + apply str_eqb_eq in E. subst. apply wf_lit_app; [|auto]. destruct H2 as [_ [_ [Hv _]]]. exact Hv.
+      + apply str_eqb_eq in E. subst. apply wf_lit_app; [|auto]. apply Hp. now left.
       + cbn [app wf_from]. auto.
   Qed.
 
@@ -747,7 +770,7 @@ Section Tokens.
     expand_string def retrieve (flatten ts) = Ok (CStr (flatten (subst n ts)), true).
   Proof.
     intros Hwf Ht Hf. unfold expand_string. rewrite (guard_tokens ts n Hf).
-    destruct (first_ref_good ts false n Hwf Hf) as [Hn [Hok [Hv [ret [He Hs]]]]].
+    destruct (first_ref_good ts false n Hwf Hf) as [Hn [Hok [ret [He Hs]]]].
     rewrite (find_and_expand_embedded def retrieve _ (ref_text n) ret (val n)); auto.
     - unfold replace_unescaped. now rewrite (repl_tokens n Hn ts 0 false Hwf eq_refl).
     - rewrite (find_uri_wf ts Hwf), Hf. reflexivity.
@@ -764,10 +787,10 @@ Section Tokens.
   Qed.
 
   Lemma rounds k : forall ts,
-    nrefs ts <= k -> wf ts -> anchored ts ->
+    nrefs ts <= k -> wf ts -> plain ts -> anchored ts ->
     expand_rec def retrieve (S k) (CStr (flatten ts)) = Ok (CStr (flatten (subst_all ts))).
   Proof.
-    induction k as [|k IH]; intros ts Hk Hwf Ht; destruct (first_ref ts) as [n|] eqn:Hf.
+    induction k as [|k IH]; intros ts Hk Hwf Hp Ht; destruct (first_ref ts) as [n|] eqn:Hf.
     - pose proof (nrefs_subst_lt n ts Hf). lia.
     - rewrite (expand_rec_unchanged def retrieve _ _ (CStr (flatten ts))).
       + now rewrite subst_all_no_ref.
@@ -777,6 +800,7 @@ Section Tokens.
         * now rewrite subst_all_subst.
         * pose proof (nrefs_subst_lt n ts Hf). lia.
         * now apply wf_subst.
+        * now apply plain_subst.
         * now apply anchored_subst.
       + rewrite expand_value_str. now apply one_round.
     - rewrite (expand_rec_unchanged def retrieve _ _ (CStr (flatten ts))).
@@ -796,9 +820,10 @@ Section Tokens.
     destruct t; cbn [subst_all1 app first_ref]; auto. now rewrite first_ref_lit_app.
   Qed.
 
-  Lemma wf_subst_all ts : forall pd, wf_from pd ts -> wf_from pd (subst_all ts).
+  Lemma wf_subst_all ts : forall pd, plain ts -> wf_from pd ts -> wf_from pd (subst_all ts).
   Proof.
-    induction ts as [|t ts IH]; intros pd H; [exact H|].
+    induction ts as [|t ts IH]; intros pd Hp H; [exact H|].
+    pose proof (plain_cons _ _ Hp) as Hp'.
     unfold subst_all in *. cbn [flat_map].
     destruct t; cbn [subst_all1 app wf_from] in *.
     - destruct H as [H1 [H2 H3]]. auto.
@@ -806,16 +831,16 @@ Section Tokens.
     - destruct H as [H1 H2]. auto.
     - destruct H as [H1 H2]. auto.
     - destruct H as [H1 [H2 H3]]. subst pd.
-      apply wf_lit_app; [|auto]. destruct H2 as [_ [_ [Hv _]]]. exact Hv.
+      apply wf_lit_app; [|auto]. apply Hp. now left.
   Qed.
 
   Lemma tokens_main ts :
-    wf ts -> anchored ts -> nrefs ts < 1000 ->
+    wf ts -> plain ts -> anchored ts -> nrefs ts < 1000 ->
     resolve_string def retrieve (flatten ts) = Ok (CStr (sem ts)).
   Proof.
-    intros Hwf Ht Hk. unfold resolve_string, resolve_leaf. rewrite max_rounds_S.
+    intros Hwf Hp Ht Hk. unfold resolve_string, resolve_leaf. rewrite max_rounds_S.
     rewrite (rounds 999 ts) by (auto; lia). cbn [escape_dollars].
-    rewrite (unescape_tokens (subst_all ts) false (wf_subst_all ts false Hwf) (first_ref_subst_all ts)).
+    rewrite (unescape_tokens (subst_all ts) false (wf_subst_all ts false Hp Hwf) (first_ref_subst_all ts)).
     now rewrite sem_subst_all.
   Qed.
 
